@@ -102,107 +102,95 @@ def interval_split(c, lo, hi, var="value"):
 
 
 def check_write_int(run):
+    """R06.1 by cell-wise partial evaluation (cdnsverif/cells.py): the value domain is partitioned at the constants the
+    code compares `value` with, m_avail at the constants it is compared with; per cell the bytes stored and the value
+    returned are read off the abstract state.  Independent of whether the code is an if-chain with unrolled stores, a
+    length helper with a switch and a loop, or anything else the evaluator can decide."""
+    from .. import cells
     facts = run.facts
     f = facts.fn("CDNS::CdnsEncoder::write_int", rule="R06.1")
-    cells = []   # (lo, hi, leaf statements)
-
-    def descend(n, lo, hi):
-        if lo > hi:
-            return
-        st = ir.stmts(n)
-        # a cell body: optional nested if-chain on value, else leaf
-        if len(st) >= 1 and st[0].get("k") == "If":
-            sp = interval_split(st[0]["cond"], lo, hi)
-            if sp is not None:
-                descend(st[0]["then"], *sp[0])
-                if st[0].get("else") is not None:
-                    descend(st[0]["else"], *sp[1])
-                else:
-                    # statements after the if apply to the else interval (fallthrough)
-                    cells.append((sp[1][0], sp[1][1], st[1:]))
-                return
-        cells.append((lo, hi, st))
-
-    body = ir.stmts(f["body"])
-    # top: if-chain followed by `return 0`
-    top_ifs = [s for s in body if s.get("k") == "If"]
-    if len(top_ifs) != 1:
-        run.ob("R06.1", "write_int:shape", None, f, f["line"], "expected one if/else-if chain on the value")
+    vp, mp = f["params"][0]["n"], f["params"][1]["n"]
+    try:
+        tab = cells.tabulate(f, facts, vp, mp)
+    except cells.Unknown as ex:
+        run.ob("R06.1", "write_int:shape", None, f, f["line"], "write_int is not decidable cell by cell (%s)" % ex)
+        run.floor("R06.1", 7, "write_int obligations")
         return
-    descend({"k": "Block", "s": [top_ifs[0]]}, 0, U64)
-    tail = [s for s in body if s.get("k") == "Return"]
-    run.ob("R06.1", "write_int:no-space-returns-0", len(tail) == 1 and const_value(tail[0].get("e")) == 0, f,
-           tail[0]["l"] if tail else f["line"], "falls back to `return 0` when the head does not fit")
     heads = tables.rfc()["cbor"]["heads"]
     want = []
     lo = 0
     for h in heads:
         want.append((lo, h["max"], h))
         lo = h["max"] + 1
-    cells = sorted([c for c in cells if c[0] <= c[1] and c[2]], key=lambda c: c[0])
-    got = [(c[0], c[1]) for c in cells]
+    # behaviour classes: adjacent cells with the same (head length on the fitting path) are one range of the code
+    def fit_len(paths):
+        ls = sorted(set(len(p[2]) for p in paths if p[2]))
+        return ls[-1] if ls else 0
+    ranges_ = []
+    for lo_, hi_, paths in tab:
+        L = fit_len(paths)
+        if ranges_ and ranges_[-1][2] == L and ranges_[-1][1] + 1 == lo_:
+            ranges_[-1] = (ranges_[-1][0], hi_, L)
+        else:
+            ranges_.append((lo_, hi_, L))
+    got = [(r[0], r[1]) for r in ranges_]
     ok = got == [(w[0], w[1]) for w in want]
     run.ob("R06.1", "write_int:partition", ok, f, f["line"],
            "value ranges partition [0,2^64) into the five RFC 8949 cells" if ok else
            "value ranges are %s, RFC 8949 preferred serialisation needs %s" % (got, [(w[0], w[1]) for w in want]))
-    if not ok:
-        return
-    for (lo, hi, st), (_, _, h) in zip(cells, want):
+    refusing = []
+    for (wlo, whi, h) in want:
         n = h["bytes"]
-        tag = "write_int:cell[%d..%s]" % (lo, "2^64-1" if hi == U64 else hi)
-        ifs = [s for s in st if s.get("k") == "If"]
-        if len(ifs) != 1:
-            run.ob("R06.1", tag, None, f, f["line"], "expected `if (m_avail >= n) {stores; return n;}`")
-            continue
-        g = cond(ifs[0]["cond"])
-        # m_avail >= n  normalises to cmp('<=', 'n', 'this.m_avail')
-        gn = None
-        if g[0] == "cmp" and g[1] == "<=" and g[3] == "this.m_avail":
-            gn = int(g[2]) if g[2].isdigit() else None
-        elif g[0] == "cmp" and g[1] == "<" and g[3] == "this.m_avail" and g[2].isdigit():
-            gn = int(g[2]) + 1
-        stores = {}
-        ret = None
+        tag = "write_int:cell[%d..%s]" % (wlo, "2^64-1" if whi == U64 else whi)
         problems = []
-        for s in ir.stmts(ifs[0]["then"]):
-            sm = store_through_mp(s)
-            if sm:
-                if sm[0] in stores:
-                    problems.append("m_p[%s] stored twice" % sm[0])
-                stores[sm[0]] = sm[1]
-            elif s.get("k") == "Return":
-                ret = const_value(s.get("e"))
-            else:
-                problems.append("unexpected statement in the cell at line %s" % s.get("l"))
-        if gn != n:
-            problems.append("space guard is m_avail >= %s, the head needs %d bytes" % (gn, n))
-        if ret != n:
-            problems.append("returns %s, stores %d bytes" % (ret, n))
-        if sorted(stores) != list(range(n)):
-            problems.append("stores bytes %s, expected 0..%d" % (sorted(stores), n - 1))
-        else:
-            hr = head_rhs(stores[0])
-            if hr is None:
-                problems.append("first byte is not `major | additional-information`")
-            else:
-                a, b = hr
-                if not (isinstance(a, dict) and a.get("k") == "Ref" and a.get("n") == "major"):
-                    a, b = b, a
-                if not (isinstance(a, dict) and a.get("k") == "Ref" and a.get("n") == "major"):
-                    problems.append("first byte does not use the major type parameter")
-                if h["ai"] == "value":
-                    if not (isinstance(b, dict) and b.get("k") == "Ref" and b.get("n") == "value"):
-                        problems.append("additional information must be the value itself for 0..23")
-                else:
-                    if const_value(b) != h["ai"]:
-                        problems.append("additional information is %s, RFC 8949 requires %d for a %d-byte head" % (
-                            const_value(b) if const_value(b) is not None else show(b), h["ai"], n))
-            for k in range(1, n):
-                sh = shift_of(stores[k])
-                if sh != 8 * (n - 1 - k):
-                    problems.append("m_p[%d] = %s, big-endian needs value >> %d" % (k, show(stores[k]), 8 * (n - 1 - k)))
-        run.ob("R06.1", tag, not problems, f, ifs[0]["l"],
-               "ai=%s, %d bytes, big-endian, guarded by m_avail >= %d, returns %d" % (h["ai"], n, n, n) if not problems else "; ".join(problems))
+        subs = [c for c in tab if not (c[1] < wlo or c[0] > whi)]
+        if any(c[0] < wlo or c[1] > whi for c in subs):
+            problems.append("the code does not distinguish this range from its neighbour")
+        for lo_, hi_, paths in subs:
+            for alo, ahi, stores, ret, how in paths:
+                try:
+                    if ahi < n:
+                        refusing.append((ret, stores, how))
+                        if stores:
+                            problems.append("stores %d byte(s) although only %d..%d are free" % (len(stores), alo, ahi))
+                        continue
+                    if alo < n:
+                        if stores:
+                            problems.append("space guard lets %d..%d free bytes through, the head needs %d bytes" % (alo, ahi, n))
+                            continue
+                        refusing.append((ret, stores, how))
+                        problems.append("refuses with %d..%d free bytes although a %d-byte head fits" % (alo, ahi, n))
+                        continue
+                    if how != "return" or ret != cells.C(n):
+                        problems.append("returns %s, stores %d bytes" % (ret[1] if ret and cells.is_c(ret) else ret, len(stores)))
+                    if sorted(stores) != list(range(n)):
+                        problems.append("stores bytes %s, expected 0..%d" % (sorted(stores), n - 1))
+                        continue
+                    b0 = cells.trunc8(stores[0])
+                    exp0 = ("or", tuple(sorted([("major",), ("byte", 0) if h["ai"] == "value" else cells.C(h["ai"])], key=repr)))
+                    if b0 != exp0:
+                        parts = list(b0[1]) if b0[0] == "or" else [b0]
+                        if ("major",) not in parts:
+                            problems.append("first byte does not use the major type parameter")
+                        ai_parts = [p for p in parts if p != ("major",)]
+                        if h["ai"] == "value":
+                            problems.append("additional information must be the value itself for 0..23")
+                        else:
+                            problems.append("additional information is %s, RFC 8949 requires %d for a %d-byte head" % (
+                                ai_parts[0][1] if len(ai_parts) == 1 and ai_parts[0][0] == "c" else ai_parts, h["ai"], n))
+                    for k in range(1, n):
+                        bk = cells.trunc8(stores[k])
+                        if bk != ("byte", 8 * (n - 1 - k)):
+                            problems.append("m_p[%d] = %s, big-endian needs value >> %d" % (
+                                k, ("value >> %d" % bk[1]) if bk[0] == "byte" else bk, 8 * (n - 1 - k)))
+                except cells.Unknown as ex:
+                    problems.append("byte expression not understood (%s)" % ex)
+        problems = sorted(set(problems))
+        run.ob("R06.1", tag, not problems if subs else None, f, f["line"],
+               "ai=%s, %d bytes, big-endian, stored only when m_avail >= %d, returns %d" % (h["ai"], n, n, n) if not problems else "; ".join(problems))
+    ok0 = bool(refusing) and all(r[0] == cells.C(0) and not r[1] and r[2] == "return" for r in refusing)
+    run.ob("R06.1", "write_int:no-space-returns-0", ok0, f, f["line"],
+           "returns 0 and stores nothing when the head does not fit" if ok0 else "the no-space path does not `return 0` without storing")
     run.floor("R06.1", 7, "write_int obligations")
 
 
@@ -465,6 +453,9 @@ def check_buffer_discipline(run):
                     writers.setdefault(f["qn"], []).append((tgt[1], n))
                 # stores through m_p
                 sm = store_through_mp(n)
+                if sm is not None and f["qn"].endswith("::write_int"):
+                    nstores += 1
+                    continue          # decided per cell below (the index may be a loop counter)
                 if sm is not None:
                     nstores += 1
                     idx = sm[0]
@@ -486,6 +477,21 @@ def check_buffer_discipline(run):
         for c in ir.calls_in(f["body"]):
             if callee_name(c) == "memcpy" and c.get("args") and is_member(ir.unwrap_all_casts(c["args"][0]), "m_p"):
                 nstores += 1
+    # write_int: on every path of every value cell the highest offset stored is below the free space the path assumes
+    from .. import cells
+    wi = facts.fn("CDNS::CdnsEncoder::write_int", rule="R06.4")
+    try:
+        tab = cells.tabulate(wi, facts, wi["params"][0]["n"], wi["params"][1]["n"])
+        for lo_, hi_, paths in tab:
+            worst = None
+            for alo, ahi, stores, ret, how in paths:
+                if stores and max(stores) >= alo:
+                    worst = (max(stores), alo, ahi)
+            run.ob("R06.4", "write_int:stores-within-free-space[%d..%s]" % (lo_, "2^64-1" if hi_ == U64 else hi_), worst is None, wi, wi["line"],
+                   "every store offset is below m_avail on its path" if worst is None else
+                   "m_p[%d] is stored on a path where only %d..%d bytes are known to be free" % worst)
+    except cells.Unknown as ex:
+        run.ob("R06.4", "write_int:stores-within-free-space", None, wi, wi["line"], "write_int is not decidable cell by cell (%s)" % ex)
     for q, ws in writers.items():
         ok = q in allowed
         run.ob("R06.4", "writer:%s" % q.split("::")[-1], ok, facts.fns(q)[0], ws[0][1]["l"],
@@ -567,7 +573,7 @@ def check_buffer_discipline(run):
                 ok = None
                 why = "update_buffer(%s): origin of the count not understood" % show(a)
             run.ob("R06.4", "%s(%s):update_buffer(%s)" % (nm, ",".join(f["sig"]), show(a)), ok, f, c["l"], why)
-    run.floor("R06.4", 40, "stores, cursor writers, update_buffer arguments")
+    run.floor("R06.4", 25, "stores, cursor writers, update_buffer arguments")
     run.info["stores_through_m_p"] = nstores
 
 
